@@ -523,6 +523,31 @@ func (e *Env) evalBin(n *EBin) Val {
 	return r
 }
 
+// ghostLoc resolves ghost(name, key) to a location in the ghost component "name".
+func (e *Env) ghostLoc(n *ECall) *Loc {
+	if len(n.Args) != 2 {
+		sfail("ghost(name, key)")
+	}
+	id, ok := n.Args[0].(*EIdent)
+	if !ok {
+		sfail("ghost: first argument must be a name")
+	}
+	k := e.eval(n.Args[1])
+	var key Term
+	switch k.K {
+	case KIface:
+		key = k.If[1]
+	case KSlice:
+		key = k.Sl[0]
+	default:
+		key = k.S
+	}
+	if key == "" {
+		sfail("ghost: unsupported key")
+	}
+	return &Loc{Kind: LGhost, Glob: id.Name, Base: key, T: specInt}
+}
+
 func (e *Env) evalCall(n *ECall) Val {
 	vc := e.vc
 	arg := func(i int) Val {
@@ -690,6 +715,17 @@ func (e *Env) evalCall(n *ECall) Val {
 			sfail("disjoint needs slices")
 		}
 		return boolVal(not(eq(a.Sl[0], b.Sl[0])))
+	case "ghost":
+		return e.pureLoadLoc(e.ghostLoc(n), specInt)
+	case "val":
+		x := arg(0)
+		switch x.K {
+		case KIface:
+			return mathInt(x.If[1])
+		case KPtr, KMap, KChan, KFunc:
+			return mathInt(x.S)
+		}
+		sfail("val() of unsupported kind")
 	case "allocated":
 		x := arg(0)
 		return boolVal(app("<", vc.rt(x.S), e.st.alloc))
